@@ -1034,6 +1034,8 @@ impl MmapXen {
         len: usize,
     ) -> MmapXenSlice {
         match mmap_xen {
+            // An empty range needs no mapping (and mmap() of zero bytes fails).
+            Some(_) if len == 0 => MmapXenSlice::raw(addr),
             Some(mmap_xen) => mmap_xen.mmap.mmap_slice(addr, prot, len).unwrap(),
             None => MmapXenSlice::raw(addr),
         }
